@@ -6,6 +6,7 @@
 //! Output (one line):
 //!   v: v=<canon> tb=<hex> w=<hex> ws=<hex|-> hl=<n> d=<canon/rest|err> eq=<1|0|-> rd=<canon/rest|err|->
 //!   b: ok used=<n> v=<canon> re=<hex> w=<hex> ws=<hex|-> hl=<n> d2=<canon/rest|err> rd=<canon/rest|err|->
+//!      (d2 = decode(re ++ unconsumed rest of the input))
 //!      err rd=<...>
 //! <canon> is a per-type list of numbers / hex for the types that have a Coq model;
 //! for the other types it is `=` (equal to the reference value by the crate's
@@ -26,6 +27,8 @@ struct Ops<T> {
     hl: fn(&T) -> usize,
     rd: Option<fn(&[u8]) -> Option<(T, usize)>>,
     canon: Option<fn(&T) -> String>,
+    /// an additional serialiser that deliberately differs (printed as wc=)
+    xw: Option<fn(&T) -> Vec<u8>>,
 }
 
 fn cn<T: PartialEq>(ops: &Ops<T>, x: &T, reference: &T) -> String {
@@ -74,8 +77,9 @@ fn value_case<T: PartialEq>(ops: &Ops<T>, v: &T, trail: &[u8]) -> String {
         Some(f) => dec_str(ops, f, &input, v).0,
         None => "-".to_string(),
     };
+    let xw = ops.xw.map(|f| format!(" wc={}", hex(&f(v)))).unwrap_or_default();
     format!(
-        "v={} tb={} w={} ws={} hl={} d={} eq={} rd={}",
+        "v={} tb={} w={} ws={} hl={} d={} eq={} rd={}{}",
         cn(ops, v, v),
         hex(&tb),
         hex(&w),
@@ -83,7 +87,8 @@ fn value_case<T: PartialEq>(ops: &Ops<T>, v: &T, trail: &[u8]) -> String {
         (ops.hl)(v),
         d,
         eq,
-        rd
+        rd,
+        xw
     )
 }
 
@@ -104,13 +109,16 @@ fn bytes_case<T: PartialEq>(ops: &Ops<T>, bs: &[u8]) -> String {
             let re = (ops.tb)(&v);
             let w = (ops.w)(&v);
             let ws = ops.ws.map(|f| hex(&f(&v))).unwrap_or("-".to_string());
-            let (d2, _) = dec_str(ops, ops.dec, &re, &v);
+            let mut again = re.clone();
+            again.extend_from_slice(&bs[used.min(bs.len())..]);
+            let (d2, _) = dec_str(ops, ops.dec, &again, &v);
             let rd = match ops.rd {
                 Some(f) => dec_str(ops, f, bs, &v).0,
                 None => "-".to_string(),
             };
+            let xw = ops.xw.map(|f| format!(" wc={}", hex(&f(&v)))).unwrap_or_default();
             format!(
-                "ok used={} v={} re={} w={} ws={} hl={} d2={} rd={}",
+                "ok used={} v={} re={} w={} ws={} hl={} d2={} rd={}{}",
                 used,
                 cn(ops, &v, &v),
                 hex(&re),
@@ -118,7 +126,8 @@ fn bytes_case<T: PartialEq>(ops: &Ops<T>, bs: &[u8]) -> String {
                 ws,
                 (ops.hl)(&v),
                 d2,
-                rd
+                rd,
+                xw
             )
         }
     }
@@ -191,6 +200,7 @@ fn tcp_ops() -> Ops<TcpHeader> {
         hl: |h| h.header_len(),
         rd: Some(|b| cur_read!(b, |c: &mut Cursor<&[u8]>| TcpHeader::read(c))),
         canon: Some(tcp_canon),
+        xw: None,
     }
 }
 fn tcp_value(a: &[&str]) -> String {
@@ -231,6 +241,24 @@ fn wvec<E: std::fmt::Debug>(f: impl FnOnce(&mut Vec<u8>) -> Result<(), E>) -> Ve
     }
 }
 
+fn ipv4_canon(h: &Ipv4Header) -> String {
+    format!(
+        "{},{},{},{},{},{},{},{},{},{},{},{},{}",
+        h.dscp.value(),
+        h.ecn.value(),
+        h.total_len,
+        h.identification,
+        h.dont_fragment as u8,
+        h.more_fragments as u8,
+        h.fragment_offset.value(),
+        h.time_to_live,
+        h.protocol.0,
+        h.header_checksum,
+        hex(&h.source),
+        hex(&h.destination),
+        hex(h.options.as_slice())
+    )
+}
 fn ipv4_ops() -> Ops<Ipv4Header> {
     Ops {
         dec: |b| Ipv4Header::from_slice(b).ok().map(|(h, r)| (h, r.len())),
@@ -239,8 +267,43 @@ fn ipv4_ops() -> Ops<Ipv4Header> {
         ws: None,
         hl: |h| h.header_len(),
         rd: Some(|b| cur_read!(b, |c: &mut Cursor<&[u8]>| Ipv4Header::read(c))),
-        canon: None,
+        canon: Some(ipv4_canon),
+        xw: Some(|h| wvec(|v| h.write(v))),
     }
+}
+fn ipv4_value(a: &[&str]) -> String {
+    let p = |i: usize| -> u64 { a[i].parse().unwrap() };
+    let arr4 = |s: &str| -> Option<[u8; 4]> { unhex(s).try_into().ok() };
+    let (Some(src), Some(dst)) = (arr4(a[10]), arr4(a[11])) else {
+        return "noval".to_string();
+    };
+    if p(0) > 255 || p(1) > 255 || p(2) > 65535 || p(3) > 65535 || p(6) > 65535 || p(7) > 255 || p(8) > 255 || p(9) > 65535 {
+        return "noval".to_string();
+    }
+    let (Ok(dscp), Ok(ecn), Ok(fo), Ok(opts)) = (
+        IpDscp::try_new(p(0) as u8),
+        IpEcn::try_new(p(1) as u8),
+        IpFragOffset::try_new(p(6) as u16),
+        Ipv4Options::try_from(&unhex(a[12])[..]),
+    ) else {
+        return "noval".to_string();
+    };
+    let h = Ipv4Header {
+        dscp,
+        ecn,
+        total_len: p(2) as u16,
+        identification: p(3) as u16,
+        dont_fragment: p(4) != 0,
+        more_fragments: p(5) != 0,
+        fragment_offset: fo,
+        time_to_live: p(7) as u8,
+        protocol: IpNumber(p(8) as u8),
+        header_checksum: p(9) as u16,
+        source: src,
+        destination: dst,
+        options: opts,
+    };
+    value_case(&ipv4_ops(), &h, &unhex(a[13]))
 }
 fn ipv6_ops() -> Ops<Ipv6Header> {
     Ops {
@@ -251,6 +314,7 @@ fn ipv6_ops() -> Ops<Ipv6Header> {
         hl: |h| h.header_len(),
         rd: Some(|b| cur_read!(b, |c: &mut Cursor<&[u8]>| Ipv6Header::read(c))),
         canon: None,
+        xw: None,
     }
 }
 fn udp_ops() -> Ops<UdpHeader> {
@@ -262,6 +326,7 @@ fn udp_ops() -> Ops<UdpHeader> {
         hl: |h| h.header_len(),
         rd: Some(|b| cur_read!(b, |c: &mut Cursor<&[u8]>| UdpHeader::read(c))),
         canon: None,
+        xw: None,
     }
 }
 fn eth_ops() -> Ops<Ethernet2Header> {
@@ -273,6 +338,7 @@ fn eth_ops() -> Ops<Ethernet2Header> {
         hl: |h| h.header_len(),
         rd: Some(|b| cur_read!(b, |c: &mut Cursor<&[u8]>| Ethernet2Header::read(c))),
         canon: None,
+        xw: None,
     }
 }
 fn vlan_ops() -> Ops<SingleVlanHeader> {
@@ -284,6 +350,7 @@ fn vlan_ops() -> Ops<SingleVlanHeader> {
         hl: |h| h.header_len(),
         rd: Some(|b| cur_read!(b, |c: &mut Cursor<&[u8]>| SingleVlanHeader::read(c))),
         canon: None,
+        xw: None,
     }
 }
 fn sll_ops() -> Ops<LinuxSllHeader> {
@@ -303,6 +370,7 @@ fn sll_ops() -> Ops<LinuxSllHeader> {
             }
         }),
         canon: None,
+        xw: None,
     }
 }
 fn macsec_ops() -> Ops<MacsecHeader> {
@@ -319,6 +387,7 @@ fn macsec_ops() -> Ops<MacsecHeader> {
         hl: |h| h.header_len(),
         rd: Some(|b| cur_read!(b, |c: &mut Cursor<&[u8]>| MacsecHeader::read(c))),
         canon: None,
+        xw: None,
     }
 }
 fn arp_ops() -> Ops<ArpPacket> {
@@ -335,6 +404,7 @@ fn arp_ops() -> Ops<ArpPacket> {
         hl: |h| h.packet_len(),
         rd: Some(|b| cur_read!(b, |c: &mut Cursor<&[u8]>| ArpPacket::read(c))),
         canon: None,
+        xw: None,
     }
 }
 fn arpeth_ops() -> Ops<ArpEthIpv4Packet> {
@@ -354,6 +424,7 @@ fn arpeth_ops() -> Ops<ArpEthIpv4Packet> {
         hl: |_| 28,
         rd: None,
         canon: None,
+        xw: None,
     }
 }
 fn auth_ops() -> Ops<IpAuthHeader> {
@@ -365,6 +436,7 @@ fn auth_ops() -> Ops<IpAuthHeader> {
         hl: |h| h.header_len(),
         rd: Some(|b| cur_read!(b, |c: &mut Cursor<&[u8]>| IpAuthHeader::read(c))),
         canon: None,
+        xw: None,
     }
 }
 fn rawext_ops() -> Ops<Ipv6RawExtHeader> {
@@ -376,7 +448,17 @@ fn rawext_ops() -> Ops<Ipv6RawExtHeader> {
         hl: |h| h.header_len(),
         rd: Some(|b| cur_read!(b, |c: &mut Cursor<&[u8]>| Ipv6RawExtHeader::read(c))),
         canon: None,
+        xw: None,
     }
+}
+fn frag_canon(h: &Ipv6FragmentHeader) -> String {
+    format!(
+        "{},{},{},{}",
+        h.next_header.0,
+        h.fragment_offset.value(),
+        h.more_fragments as u8,
+        h.identification
+    )
 }
 fn frag_ops() -> Ops<Ipv6FragmentHeader> {
     Ops {
@@ -386,8 +468,20 @@ fn frag_ops() -> Ops<Ipv6FragmentHeader> {
         ws: None,
         hl: |h| h.header_len(),
         rd: Some(|b| cur_read!(b, |c: &mut Cursor<&[u8]>| Ipv6FragmentHeader::read(c))),
-        canon: None,
+        canon: Some(frag_canon),
+        xw: None,
     }
+}
+fn frag_value(a: &[&str]) -> String {
+    let p = |i: usize| -> u64 { a[i].parse().unwrap() };
+    if p(0) > 255 || p(1) > 65535 || p(3) > u32::MAX as u64 {
+        return "noval".to_string();
+    }
+    let Ok(fo) = IpFragOffset::try_new(p(1) as u16) else {
+        return "noval".to_string();
+    };
+    let h = Ipv6FragmentHeader::new(IpNumber(p(0) as u8), fo, p(2) != 0, p(3) as u32);
+    value_case(&frag_ops(), &h, &unhex(a[4]))
 }
 fn icmp4_ops() -> Ops<Icmpv4Header> {
     Ops {
@@ -398,6 +492,7 @@ fn icmp4_ops() -> Ops<Icmpv4Header> {
         hl: |h| h.header_len(),
         rd: Some(|b| cur_read!(b, |c: &mut Cursor<&[u8]>| Icmpv4Header::read(c))),
         canon: None,
+        xw: None,
     }
 }
 fn icmp6_ops() -> Ops<Icmpv6Header> {
@@ -409,6 +504,7 @@ fn icmp6_ops() -> Ops<Icmpv6Header> {
         hl: |h| h.header_len(),
         rd: Some(|b| cur_read!(b, |c: &mut Cursor<&[u8]>| Icmpv6Header::read(c))),
         canon: None,
+        xw: None,
     }
 }
 fn igmp_ops() -> Ops<IgmpHeader> {
@@ -420,6 +516,7 @@ fn igmp_ops() -> Ops<IgmpHeader> {
         hl: |h| h.header_len(),
         rd: None,
         canon: None,
+        xw: None,
     }
 }
 fn grec_ops() -> Ops<igmp::ReportGroupRecordV3Header> {
@@ -431,6 +528,7 @@ fn grec_ops() -> Ops<igmp::ReportGroupRecordV3Header> {
         hl: |_| igmp::ReportGroupRecordV3Header::LEN,
         rd: None,
         canon: None,
+        xw: None,
     }
 }
 fn prefix_ops() -> Ops<icmpv6::PrefixInformation> {
@@ -461,6 +559,7 @@ fn prefix_ops() -> Ops<icmpv6::PrefixInformation> {
             }
         }),
         canon: None,
+        xw: None,
     }
 }
 
@@ -501,6 +600,7 @@ fn ext4_ops() -> Ops<Ext4> {
             r.ok().map(|(e, n)| (Ext4(start, e, n), b.len() - 1 - pos))
         }),
         canon: None,
+        xw: None,
     }
 }
 #[derive(PartialEq)]
@@ -539,23 +639,43 @@ fn ext6_ops() -> Ops<Ext6> {
             r.ok().map(|(e, n)| (Ext6(start, e, n), b.len() - 1 - pos))
         }),
         canon: None,
+        xw: None,
     }
 }
-fn iph_ops() -> Ops<IpHeaders> {
+/// IpHeaders::write recomputes the IPv4 header checksum (Ipv4Header::write), so the value
+/// decoded from the re-encoded bytes is compared modulo `header_checksum`; the checksum
+/// bytes themselves are compared by the checker when the input's checksum was valid.
+struct IphW(IpHeaders);
+impl PartialEq for IphW {
+    fn eq(&self, o: &IphW) -> bool {
+        let strip = |h: &IpHeaders| -> IpHeaders {
+            match h.clone() {
+                IpHeaders::Ipv4(mut a, e) => {
+                    a.header_checksum = 0;
+                    IpHeaders::Ipv4(a, e)
+                }
+                x => x,
+            }
+        };
+        strip(&self.0) == strip(&o.0)
+    }
+}
+fn iph_ops() -> Ops<IphW> {
     Ops {
         dec: |b| {
             IpHeaders::from_slice(b).ok().map(|(h, p)| {
                 let n = h.header_len();
                 let _ = p;
-                (h, b.len().wrapping_sub(n))
+                (IphW(h), b.len().wrapping_sub(n))
             })
         },
-        tb: |h| wvec(|v| h.write(v)),
-        w: |h| wvec(|v| h.write(v)),
+        tb: |h| wvec(|v| h.0.write(v)),
+        w: |h| wvec(|v| h.0.write(v)),
         ws: None,
-        hl: |h| h.header_len(),
-        rd: Some(|b| cur_read!(b, |c: &mut Cursor<&[u8]>| IpHeaders::read(c).map(|x| x.0))),
+        hl: |h| h.0.header_len(),
+        rd: Some(|b| cur_read!(b, |c: &mut Cursor<&[u8]>| IpHeaders::read(c).map(|x| IphW(x.0)))),
         canon: None,
+        xw: None,
     }
 }
 
@@ -563,6 +683,8 @@ fn run(line: &str) -> String {
     let parts: Vec<&str> = line.split_whitespace().collect();
     match (parts[0], parts[1]) {
         ("v", "tcp") => tcp_value(&parts[2..]),
+        ("v", "ipv4") => ipv4_value(&parts[2..]),
+        ("v", "frag") => frag_value(&parts[2..]),
         ("b", t) => {
             let bs = unhex(parts[2]);
             match t {
